@@ -1,6 +1,7 @@
 package props
 
 import (
+	"bufio"
 	"bytes"
 	"fmt"
 	"io"
@@ -263,3 +264,26 @@ func drawChunks(t *rapid.T) []int {
 }
 
 func yield() { runtime.Gosched() }
+
+// streamSource presents data through one of the reader types callers use (the decoders treat some of them specially:
+// *bytes.Buffer, *bytes.Reader, io.Seeker). unread reports how many bytes of data the decoder has not consumed yet.
+func streamSource(rt *rapid.T, data []byte, label string) (src io.Reader, unread func() int, kind string) {
+	kind = rapid.SampledFrom([]string{"bytes.Reader", "bytes.Reader", "shortReads", "bytes.Buffer", "bufio.Reader", "plain"}).Draw(rt, label)
+	switch kind {
+	case "bytes.Buffer":
+		b := bytes.NewBuffer(append([]byte{}, data...))
+		return b, b.Len, kind
+	case "bufio.Reader":
+		under := bytes.NewReader(data)
+		b := bufio.NewReaderSize(onlyReader{under}, rapid.SampledFrom([]int{16, 512, 4096, 1 << 16}).Draw(rt, label+"/bufioSize"))
+		return b, func() int { return under.Len() + b.Buffered() }, kind
+	case "shortReads":
+		under := bytes.NewReader(data)
+		return &chunkReader{r: under, chunks: drawChunks(rt)}, under.Len, kind
+	case "plain":
+		under := bytes.NewReader(data)
+		return onlyReader{under}, under.Len, kind
+	}
+	b := bytes.NewReader(data)
+	return b, b.Len, kind
+}
